@@ -12,6 +12,10 @@ class StageErr(Exception):
 
 
 class BW(Worker):
+    def __init__(self, *, nst=0, **kw):
+        super().__init__(**kw)
+        self.num_stream_threads = nst        # > 0: call() runs in the worker's own thread pool (Worker.stream)
+
     def call(self, x):
         i, dur, fail = x
         if dur:
